@@ -1212,7 +1212,8 @@ class Interp:
     def inline(self, func, e, args, kw, st, self_param=None):
         if self.depth >= self.max_depth:
             return [(Unknown("depth"), st)]
-        sub = Interp(func.node, func.cls.name if func.cls else (self.clsname if self_param else None), self.oracle, self.max_paths,
+        static = func.cls is not None and "staticmethod" in getattr(func, "decorators", ())
+        sub = Interp(func.node, (func.cls.name if func.cls and not static else (self.clsname if self_param else None)), self.oracle, self.max_paths,
                      loop_unroll=self.loop_unroll, depth=self.depth + 1, max_depth=self.max_depth,
                      exc_bases=self.exc_bases, resolve=self.resolve, selfname=self_param)
         sub.unknowns = self.unknowns
@@ -1221,7 +1222,7 @@ class Interp:
                 setattr(sub, hk, getattr(self, hk))
         params = list(func.params)
         env = {}
-        if func.cls is not None and params:
+        if func.cls is not None and params and "staticmethod" not in getattr(func, "decorators", ()):
             params = params[1:]
         for p, v in zip(params, args):
             if p != self_param:
